@@ -313,9 +313,9 @@ LiquidateReply(W, input, output) ==
       margin == IF fee > rm.margin THEN 0 ELSE rm.margin - fee
       prepaid0 == W.eng.st.bad_debt
       \* utils.rs::realize_bad_debt
-      delta_bd == IF bad = 0 \/ prepaid0 > bad THEN 0 ELSE bad - prepaid0
-      prepaid1 == IF bad = 0 THEN prepaid0 ELSE IF prepaid0 > bad THEN prepaid0 - bad ELSE 0
-      m1 == IF bad # 0 /\ ~(prepaid0 > bad) THEN <<FundWithdraw(W, delta_bd)>> ELSE <<>>
+      delta_bd == IF bad = 0 \/ prepaid0 >= bad THEN 0 ELSE bad - prepaid0
+      prepaid1 == IF bad = 0 THEN prepaid0 ELSE IF prepaid0 >= bad THEN prepaid0 - bad ELSE 0
+      m1 == IF bad # 0 /\ ~(prepaid0 >= bad) THEN <<FundWithdraw(W, delta_bd)>> ELSE <<>>
       m2 == IF margin # 0 THEN <<Xfer(W, W.eng.cfg.ifund, margin)>> ELSE <<>>
       Wb == [W EXCEPT !.eng.st.bad_debt = prepaid1]
       wd == Withdraw(Wb, by, fee, delta_bd)
@@ -339,7 +339,8 @@ PartialLiquidationReply(W, input, output) ==
       fee == penalty \div 2
       nsize == IF p.size < 0 THEN p.size + input ELSE p.size - input
       nmargin == CSub(CSub(p.margin, Abs(realized)), penalty)
-      nnot == IF nsize >= 0 THEN CSub(CSub(p.notional, sw.on), Abs(realized))
+      \* fix F16: the side is the one before the slice is removed (a 100% slice leaves size 0)
+      nnot == IF p.size >= 0 THEN CSub(CSub(p.notional, sw.on), Abs(realized))
               ELSE CSub(Abs(realized) + p.notional, sw.on)
       wd == Withdraw(W, by, fee, 0)
   IN IF ~W.eng.tmp.swap \/ ~W.eng.tmp.liq THEN Fail(W, "no_tmp")
